@@ -9,8 +9,18 @@ LEVEL = 'proof'
 RULE = ('corpus; structured random 2-D images with even sides 2..64 (square and not, biased to small sizes and powers of '
         'two) x float32/float64/integer dtypes x seven layouts x preserve_energy on/off x inline on/off x all ten '
         'Daubechies codes x borders {ncoeffs-3, ncoeffs-2, ncoeffs, ncoeffs+1, ncoeffs+5} (and smaller ones); '
-        'round trips, energy, D2 = Haar, linearity with integer weights, input untouched. Non-trivial = the image is '
-        'not constant zero; distinct = distinct case.')
+        'round trips, energy, D2 = Haar, linearity with integer weights, input untouched; Daubechies energy against the '
+        'proved bound (fill value 0). Memory-level cases (kind mem): sides 1..20 ODD AND EVEN x eleven layouts (C, '
+        'Fortran, strided, negative strides, offset, transposed, column step 3, padded rows, reversed rows, strided '
+        'transposed) x the four wrappers x inline on/off x eight dtypes: the whole buffer owning the input before/after '
+        'the call and the returned image against Model/C17Mem.lean. Centre cases (kind centeri): 1-3 dimensions x integer '
+        'borders negative / 0..24 / 2^k+-1 up to 2^40-1 / out of range, zero sides: _wavelet_center_compute, '
+        'wavelet_center, wavelet_decenter against centerComputeI. Size-threshold stream (tag size=threshold): 6 cases per '
+        'quick run (10 otherwise) with row lengths / element counts crossing 2^8, 2^15, 2^16 (2x65538, 65538x2, 258x256, '
+        '2x32770, 256x258, odd 2x65537), round trip / energy / linearity / Lean core model; thorough tier adds two float32 '
+        'images with more than 2^24 elements (2x8388610, 131074x130) judged by an exact O(N) numpy transliteration of the '
+        'Haar row kernels whose agreement with the Lean model is checked on every small haar case. Non-trivial = the image is not constant zero; '
+        'distinct = distinct case.')
 ASSUMPTIONS = [
     'finite values, |f| <= 1e6; even sides (the statement names them); sizes < 2^31',
     'Daubechies reconstruction is asserted when the offsets at which wavelet_center embeds the image are >= ncoeffs - 2 '
@@ -21,12 +31,20 @@ ASSUMPTIONS = [
     'Daubechies reconstruction on float64 / integer images: the PROVED tolerance of theorem C17_tables_error_bound, '
     'tableTol[code]*max|f| (tableTol = 0, 1.3e-7, 1.9e-7, 2.5e-6, 1.7e-7, 7e-8, 8.1e-7, 1.5e-7, 7e-8, 1.1e-7 for D2..D20, '
     'read from lean/Mahotas/Properties/C17.lean; exact arithmetic on the float32 tables, every float image being a '
-    'rational image) plus 1e-12*max(1,max|f|) for the rounding of the double evaluation (not proved); it replaces the '
-    'empirical 1e-5 and is 4 to 140 times tighter. float32 images: 5e-5*max|f| (empirical: the kernels then compute in '
+    'rational image) plus the PROVED rounding allowance tableRoundTol[code]*max|f| of theorem C17_tables_rounded_bound '
+    '(every operation of the kernels rounded, standard model |fl x - x| <= 2^-53|x|, underflow excluded; + 1e-290); it '
+    'replaces the empirical 1e-5 and the former unproved 1e-12. float32 images: 5e-5*max|f| (empirical: the kernels then compute in '
     'float32, whose rounding dominates the proved 2.5e-6); '
     'model comparison 1e-12*scale for float64 and integer images, 1e-4*scale for float32 images (the kernels then '
     'compute in float32, the model in double)',
     'inline=True is not combined with read-only inputs (numpy refuses the final in-place scaling)',
+    'odd sides are outside the statement: on them only the memory-level model is compared (model-kind findings); a write '
+    'into the caller\'s buffer with inline=False (or on an integer array) is a property finding on even sides only',
+    'Daubechies energy |sum w^2 - 4 sum fc^2| <= (4 tableTol[code] + 1e-12) sum fc^2 (float32 images: + 1e-4) is asserted '
+    'under the hypothesis of theorem C17_tables_energy_bound (fill value 0, embedding offsets >= ncoeffs-2) as a '
+    'model-kind check: the statement names only the Haar energy',
+    'wavelet_center is only executed when the centred array has at most 2^16 elements; for larger results (huge borders) '
+    'only _wavelet_center_compute (shape and offsets) is compared with the model',
 ]
 TRUSTED = ['numpy (array construction, layout views)']
 CODES = ['D%d' % i for i in range(2, 21, 2)]
@@ -34,23 +52,103 @@ INT_DT = ['uint8', 'int16', 'int32', 'int64', 'uint16', 'bool']
 
 
 _TABLE_TOL = None
+_TABLE_ROUND_TOL = None
+
+
+def _read_rat_list(name, cap):
+    import re
+    from fractions import Fraction
+    src = (core.VERIF / 'lean' / 'Mahotas' / 'Properties' / 'C17.lean').read_text()
+    m = re.search(r'def ' + name + r' : List Rat :=\s*\[(.*?)\]', src, flags=re.S)
+    if not m:
+        raise core.Infra(f'C17: def {name} not found in Properties/C17.lean')
+    vals = [Fraction(x.strip().replace(' ', '')) for x in m.group(1).split(',')]
+    if len(vals) != len(CODES) or any(v < 0 or v > cap for v in vals):
+        raise core.Infra(f'C17: {name} has an unexpected shape')
+    return [float(v) for v in vals]
 
 
 def table_tol():
     """the proved tolerances `tableTol` of lean/Mahotas/Properties/C17.lean (theorem C17_tables_error_bound)"""
     global _TABLE_TOL
     if _TABLE_TOL is None:
-        import re
         from fractions import Fraction
-        src = (core.VERIF / 'lean' / 'Mahotas' / 'Properties' / 'C17.lean').read_text()
-        m = re.search(r'def tableTol : List Rat :=\s*\[(.*?)\]', src, flags=re.S)
-        if not m:
-            raise core.Infra('C17: def tableTol not found in Properties/C17.lean')
-        vals = [Fraction(x.strip().replace(' ', '')) for x in m.group(1).split(',')]
-        if len(vals) != len(CODES) or any(v < 0 or v > Fraction(1, 100000) for v in vals):
-            raise core.Infra('C17: tableTol has an unexpected shape')
-        _TABLE_TOL = [float(v) for v in vals]
+        _TABLE_TOL = _read_rat_list('tableTol', Fraction(1, 100000))
     return _TABLE_TOL
+
+
+def table_round_tol():
+    """the proved allowances `tableRoundTol` for the rounding of the double evaluation (theorem C17_tables_rounded_bound:
+    standard model |fl x - x| <= 2^-53 |x|, underflow excluded)"""
+    global _TABLE_ROUND_TOL
+    if _TABLE_ROUND_TOL is None:
+        from fractions import Fraction
+        _TABLE_ROUND_TOL = _read_rat_list('tableRoundTol', Fraction(1, 10 ** 10))
+    return _TABLE_ROUND_TOL
+
+
+MEM_LAYOUTS = ['C', 'C', 'F', 'strided', 'negstride', 'offset', 'transposed', 'colstep3', 'rowpad', 'negrows', 'tstrided']
+
+
+def _mem_layout(a, layout):
+    """gen.relayout plus a few views whose strides are odd multiples / padded / partly negative (they matter for the
+    pointer arithmetic `high = data + step*N1/2` on odd sides)"""
+    a = np.ascontiguousarray(a)
+    if layout == 'colstep3':
+        big = np.full((a.shape[0], 3 * a.shape[1] + 1), 7, a.dtype)
+        v = big[:, 1::3]
+    elif layout == 'rowpad':
+        big = np.full((a.shape[0] + 1, a.shape[1] + 3), 1, a.dtype)
+        v = big[:a.shape[0], 2:2 + a.shape[1]]
+    elif layout == 'negrows':
+        big = np.zeros(a.shape, a.dtype)
+        v = big[::-1]
+    elif layout == 'tstrided':
+        big = np.full((2 * a.shape[1], 3 * a.shape[0]), 2, a.dtype)
+        v = big[::2, ::3].T
+    else:
+        return gen.relayout(a, layout)
+    v[...] = a
+    return v
+
+
+def _root_flat(v):
+    """(flat 1-D view of the buffer that owns `v`'s memory, element offset of v[0,0], element strides)"""
+    root = v
+    while isinstance(root.base, np.ndarray):
+        root = root.base
+    if not (root.flags.c_contiguous or root.flags.f_contiguous):
+        raise core.Infra('C17: root buffer not contiguous')
+    isz = v.dtype.itemsize
+    flat = np.lib.stride_tricks.as_strided(root, shape=(root.size,), strides=(isz,))
+    off = (v.__array_interface__['data'][0] - root.__array_interface__['data'][0]) // isz
+    return flat, int(off), [int(st // isz) for st in v.strides]
+
+
+def _py_rows(name, X):
+    """exact O(N) numpy transliteration of the Haar row kernels on the rows of a C-contiguous 2-D array (core model:
+    valid where the pointer high = data + step*N1/2 is right); its agreement with the Lean model is checked on every
+    small `haar` case"""
+    N1 = X.shape[1]
+    h = N1 // 2
+    out = np.zeros_like(X)
+    if name == 'haar':
+        out[:, :h] = X[:, 0:2 * h:2] + X[:, 1:2 * h:2]
+        out[:, h:2 * h] = X[:, 1:2 * h:2] - X[:, 0:2 * h:2]
+    else:
+        lo, hi = X[:, :h], X[:, h:2 * h]
+        out[:, 0:2 * h:2] = (lo - hi) / 2
+        out[:, 1:2 * h:2] = (lo + hi) / 2
+    return out
+
+
+def _py_haar2(name, A, pe):
+    X = np.array(A, copy=True)
+    X = _py_rows(name, X)
+    X = np.ascontiguousarray(_py_rows(name, np.ascontiguousarray(X.T)).T)
+    if pe:
+        X = X / X.dtype.type(2) if name == 'haar' else X * X.dtype.type(2)
+    return X
 
 
 def _arr(case, key='data'):
@@ -73,15 +171,15 @@ def _run(case):
     import mahotas as mh
     k = case['kind']
     dt = case['dtype']
-    A = _arr(case)
+    A = _arr(case) if 'data' in case else np.zeros(case['shape'], case['dtype'])
     layout = case.get('layout', 'C')
     inline = bool(case.get('inline', False))
     isfloat = dt in ('float32', 'float64')
     f = []
     req = []
-    Al = gen.relayout(A.copy(), layout)
+    Al = _mem_layout(A.copy(), layout)
     before = Al.copy()
-    scale = max(1.0, float(np.abs(A.astype(np.float64)).max()))
+    scale = max(1.0, float(np.abs(A.astype(np.float64)).max())) if A.size else 1.0
 
     def untouched(tag):
         if not np.array_equal(before, Al):
@@ -97,6 +195,10 @@ def _run(case):
                     'input' if (h is Al or np.shares_memory(h, Al)) else 'fresh', None, 'wrap:haar'))
         hc = np.array(h, copy=True)
         req.append((_line('haar', A, pe), hc, _mtol(dt, A) * 4, 'haar'))
+        if A.size <= 4096:
+            # the numpy oracle used for the huge thorough-tier cases agrees with the Lean model (double arithmetic)
+            req.append((_line('haar', A, pe), _py_haar2('haar', A.astype(np.float64), pe), 1e-12 * scale * 4, 'oracle-haar'))
+            req.append((_line('ihaar', A, pe), _py_haar2('ihaar', A.astype(np.float64), pe), 1e-12 * scale * 4, 'oracle-ihaar'))
         r = mh.ihaar(hc.copy(), preserve_energy=pe, inline=False)
         req.append((_line('ihaar', hc, pe), np.array(r), _mtol(dt, hc) * 4, 'ihaar'))
         exact = bool(np.all(A == np.round(A))) and scale < 2 ** 20
@@ -166,9 +268,14 @@ def _run(case):
         rd = mh.wavelet_decenter(r, A.shape, border=border)
         # judged in evaluate(): asserted when the offsets of the embedding (from the model) are >= ncoeffs - 2,
         # the margin of theorem C17_reconstruction_centered
+        # energy of the Daubechies transform on the real code against theorem C17_tables_energy_bound (fill value 0)
+        e_in = float((np.asarray(fc0, np.float64) ** 2).sum())
+        e_out = float((np.asarray(w0, np.float64) ** 2).sum())
+        center_req[1].update(e_in=e_in, e_out=e_out,
+                             e_tol=(4 * table_tol()[ci] + (1e-4 if dt == 'float32' else 1e-12)) * e_in)
         center_req[1].update(err=float(np.abs(np.asarray(rd, np.float64) - A.astype(np.float64)).max()),
                              tol=(5e-5 * scale if dt == 'float32' else
-                                  table_tol()[ci] * float(np.abs(A.astype(np.float64)).max()) + 1e-12 * scale),
+                                  (table_tol()[ci] + table_round_tol()[ci]) * float(np.abs(A.astype(np.float64)).max()) + 1e-290),
                              nco=nco, code=code, border=border)
     elif k == 'lin':
         name = case['name']
@@ -198,6 +305,90 @@ def _run(case):
         if not err <= tol:
             f.append(dict(kind='property', key=f'linearity:{name}', detail=dict(err=err, tol=tol, code=code)))
         req.append((_line(name, A, pe, ci), ta, _mtol(dt, A, ta) * 8, name))
+    elif k == 'mem':
+        # the memory-level model (Model/C17Mem.lean): the whole buffer that owns the input, before and after the call,
+        # and the returned image; odd sides included (the statement is silent there: model-kind only)
+        name = case['name']
+        ci = CODES.index(case.get('code', 'D2'))
+        pe = bool(case.get('pe', True))
+        Al = _mem_layout(A.copy(), layout)
+        flat, off, strides = _root_flat(Al)
+        flat0 = flat.copy()
+        kw = dict(inline=inline)
+        if name in ('haar', 'ihaar'):
+            r = getattr(mh, name)(Al, preserve_energy=pe, **kw)
+        else:
+            r = getattr(mh, name)(Al, CODES[ci], **kw)
+        flat1 = np.asarray(flat, np.float64).copy()
+        even = all(n % 2 == 0 for n in A.shape)
+        if (not inline or not isfloat) and not np.array_equal(flat0, flat):
+            f.append(dict(kind='property' if even else 'model', key=f'input-modified:{name}', detail=dict(layout=layout)))
+        line = (f"c17 kind=mem name={name} shape={gen.enc_shape(A.shape)} strides={core.fmt_ints(strides)} off={off} "
+                f"buf={core.fmt_floats(np.asarray(flat0, np.float64))} code={ci} pe={1 if pe else 0} "
+                f"isfloat={1 if isfloat else 0} inline={1 if inline else 0}")
+        tolm = _mtol(dt, flat0, r) * 16
+        req.append((line, dict(res=np.asarray(r, np.float64).copy(), buf=flat1,
+                               aliased=bool(r is Al or np.shares_memory(r, Al))), tolm, f'mem:{name}'))
+    elif k == 'centeri':
+        # `_wavelet_center_compute` for every integer border (negative, zero, huge, out of range) and its two users
+        border = int(case['border'])
+        shape = tuple(case['shape'])
+        got = dict()
+        try:
+            from mahotas.convolve import _wavelet_center_compute
+            ns, pos = _wavelet_center_compute(shape, border)
+            got['shape'] = [int(x) for x in ns]
+            got['delta'] = [int(p.start) for p in pos]
+        except ValueError:
+            got['shape'] = None
+        import math
+        if got['shape'] is not None and math.prod(got['shape']) <= 1 << 16:
+            fc = mh.wavelet_center(Al, border=border, cval=case.get('cval', 0.0))
+            if list(fc.shape) != got['shape']:
+                f.append(dict(kind='model', key='center-shape-vs-compute', detail=dict(got=list(fc.shape))))
+            back = mh.wavelet_decenter(fc, A.shape, border=border)
+            if back.shape != A.shape or not np.array_equal(np.asarray(back, np.float64), A.astype(np.float64)):
+                f.append(dict(kind='property', key='decenter-center', detail=dict(shape=list(back.shape), border=border)))
+            inside = np.zeros(fc.shape, bool)
+            inside[tuple(slice(d, d + e) for d, e in zip(got['delta'], A.shape))] = True
+            if not np.all(fc[~inside] == case.get('cval', 0.0)):
+                f.append(dict(kind='model', key='center-fill', detail=dict(border=border)))
+        req.append((f"c17 kind=centeri shape={core.fmt_ints(shape)} border={border}", got, None, 'centeri'))
+    elif k == 'tmodel':
+        # wrapper on a C-contiguous float array against the CORE model; generated only where theorem C17_mem_is_core
+        # applies (even number of rows or a single column ... : both pointers right), odd row lengths included
+        name = case['name']
+        pe = bool(case.get('pe', True))
+        ci = CODES.index(case.get('code', 'D2'))
+        X = np.ascontiguousarray(A)
+        r = getattr(mh, name)(X, preserve_energy=pe) if name in ('haar', 'ihaar') else getattr(mh, name)(X, CODES[ci])
+        req.append((_line(name, A, pe, ci), np.asarray(r, np.float64), _mtol(dt, A, r) * 8, f'tmodel:{name}'))
+        if name == 'haar':
+            r2 = mh.ihaar(r, preserve_energy=pe)
+            want = A.astype(np.float64).copy()
+            want[2 * (A.shape[0] // 2):, :] = 0
+            want[:, 2 * (A.shape[1] // 2):] = 0
+            if not np.array_equal(np.asarray(r2, np.float64), want):
+                f.append(dict(kind='model', key='haar-roundtrip-odd', detail=dict(shape=list(A.shape))))
+    elif k == 'bigpy':
+        # thorough tier: more than 2^24 elements, judged by the numpy oracle (the Lean driver is not fed 16M numbers)
+        pe = bool(case.get('pe', True))
+        rs = np.random.RandomState(case['seed'])
+        A = rs.randint(-8, 9, size=case['shape']).astype(dt)
+        h = mh.haar(A, preserve_energy=pe)
+        o = _py_haar2('haar', A, pe)
+        if not np.array_equal(np.asarray(h), o):
+            bad = np.argwhere(np.asarray(h) != o)
+            f.append(dict(kind='model', key='oracle:haar:big', detail=dict(first=[int(t) for t in bad[0]], nbad=int(len(bad)))))
+        r = mh.ihaar(h, preserve_energy=pe)
+        if not np.array_equal(np.asarray(r), A):
+            bad = np.argwhere(np.asarray(r) != A)
+            f.append(dict(kind='property', key='haar-roundtrip:big', detail=dict(first=[int(t) for t in bad[0]], nbad=int(len(bad)))))
+        if pe:
+            e0 = float((A.astype(np.float64) ** 2).sum()); e1 = float((np.asarray(h, np.float64) ** 2).sum())
+            if not abs(e0 - e1) <= 1e-9 * max(1.0, e0):
+                f.append(dict(kind='property', key='haar-energy:big', detail=dict(before=e0, after=e1)))
+        return f, req, True
     nontrivial = bool(np.any(A != 0))
     return f, req, nontrivial
 
@@ -235,6 +426,35 @@ def evaluate(cases):
                     if c['_margin'] and not got['err'] <= got['tol']:
                         f.append(dict(kind='property', key=f"daubechies-reconstruction:{got['code']}",
                                       detail=dict(err=got['err'], tol=got['tol'], border=got['border'], delta=delta)))
+                    # the proved energy bound (C17_tables_energy_bound: the centred image vanishes in its first
+                    # ncoeffs-2 rows and columns) holds on the real code; the statement names only the Haar energy,
+                    # so a failure is a broken correspondence, not a property violation
+                    if c['_margin'] and not abs(got['e_out'] - 4 * got['e_in']) <= got['e_tol']:
+                        f.append(dict(kind='model', key=f"daubechies-energy:{got['code']}",
+                                      detail=dict(e_in=got['e_in'], e_out=got['e_out'], tol=got['e_tol'])))
+                continue
+            if key == 'centeri':
+                want = core.ints(d['nshape']) if d['nshape'] != 'none' else None
+                wantd = core.ints(d['delta']) if d['delta'] != 'none' else None
+                if want != got['shape'] or (want is not None and wantd != got['delta']):
+                    f.append(dict(kind='model', key='centeri', detail=dict(got=got, model=dict(shape=want, delta=wantd))))
+                elif want is not None and any(n & (n - 1) for n in got['shape']):
+                    f.append(dict(kind='property', key='center-not-power-of-two', detail=dict(got=got['shape'])))
+                continue
+            if key.startswith('mem:'):
+                mres, mbuf = core.floats(d['model']), core.floats(d['buf'])
+                inp = d.get('target')
+                for what, mv, gv in (('result', mres, got['res'].ravel()), ('buffer', mbuf, got['buf'].ravel())):
+                    if mv.size != gv.size:
+                        raise core.Infra('size mismatch')
+                    bad = np.nonzero(~(np.abs(gv - mv) <= tol))[0]
+                    if len(bad) and not any(x['kind'] == 'property' for x in f):
+                        i = int(bad[0])
+                        f.append(dict(kind='model', key=f'{key}:{what}:{"float32" if c["dtype"] == "float32" else "f64"}',
+                                      detail=dict(index=i, got=float(gv[i]), model=float(mv[i]), nbad=int(len(bad)), tol=tol)))
+                        break
+                if inp is not None and (inp == 'input') != got['aliased']:
+                    f.append(dict(kind='model', key=f"inline:{key[4:]}-buffer", detail=dict(real=got['aliased'], model=inp)))
                 continue
             if key.startswith('wrap:'):
                 if d.get('target') != got:
@@ -250,16 +470,29 @@ def evaluate(cases):
                 f.append(dict(kind='model', key=f'model:{key}:{"float32" if c["dtype"] == "float32" else "f64"}',
                               detail=dict(pixel=i, got=float(g[i]), model=float(model[i]), nbad=int(len(bad)), tol=tol)))
         tags = dict(kind=c['kind'], dtype=c['dtype'], layout=c.get('layout', 'C'),
-                    size=('small' if max(c['shape']) <= 8 else 'medium' if max(c['shape']) <= 32 else 'large'),
-                    square=c['shape'][0] == c['shape'][1])
+                    size=('small' if max(c['shape'] + [0]) <= 8 else 'medium' if max(c['shape']) <= 32 else 'large'),
+                    square=len(set(c['shape'])) == 1)
         if c['kind'] == 'haar':
             tags.update(pe=c['pe'], inline=c.get('inline', False))
         elif c['kind'] == 'daub':
             tags.update(code=c['code'], inline=c.get('inline', False),
                         margin=('>=ncoeffs-2 (reconstruction asserted)' if c.pop('_margin', False) else '<ncoeffs-2 (model only)'))
+        elif c['kind'] in ('tmodel', 'bigpy'):
+            tags.update(name=c.get('name', 'haar'), parity=''.join('o' if n % 2 else 'e' for n in c['shape']))
+        elif c['kind'] == 'mem':
+            tags.update(name=c['name'], inline=c.get('inline', False),
+                        parity=''.join('o' if n % 2 else 'e' for n in c['shape']))
+        elif c['kind'] == 'centeri':
+            b = c['border']
+            tags.update(border=('negative' if b < 0 else 'zero' if b == 0 else 'small' if b <= 64 else
+                                'large' if b < 2 ** 40 else 'out-of-range'), ndim=len(c['shape']))
         else:
             tags.update(name=c['name'], code=c.get('code'))
-        res.append(dict(findings=f, nontrivial=nontrivial, sig=json.dumps(c, sort_keys=True), tags=tags))
+        if c.get('stream') == 'threshold':
+            tags['size'] = 'threshold'
+        res.append(dict(findings=f, nontrivial=nontrivial, sig=(json.dumps(c, sort_keys=True) if len(c.get('data', ())) <= 20000 else
+                             json.dumps(dict(kind=c['kind'], shape=c['shape'], dtype=c['dtype'], stream='threshold',
+                                             h=hash(tuple(c['data']))), sort_keys=True)), tags=tags))
     return res
 
 
@@ -342,10 +575,87 @@ def cases(rng, tier):
                      data=_values(rng, n, dtype), data2=_values(rng, n, dtype), a=float(rng.randint(-4, 4)),
                      b=float(rng.randint(-4, 4)), code=rng.choice(CODES), pe=rng.random() < 0.5, layout=layout)
         out.append(c)
+    # memory-level cases: odd and even sides, eleven layouts, the four wrappers, inline on/off (Model/C17Mem.lean)
+    for i in range(dict(quick=700, thorough=15000, search=3000)[tier]):
+        def side():
+            u = rng.random()
+            return (rng.choice([1, 3, 3, 5, 5, 7, 9, 11, 13]) if u < 0.45 else
+                    rng.choice([2, 2, 4, 4, 6, 8, 10, 12, 16]) if u < 0.9 else rng.randint(1, 20))
+        shape = [side(), side()]
+        dtype = _dtype(rng)
+        out.append(dict(kind='mem', dtype=dtype, shape=shape, name=rng.choice(['haar', 'ihaar', 'daubechies', 'idaubechies']),
+                        data=_values(rng, shape[0] * shape[1], dtype), layout=rng.choice(MEM_LAYOUTS),
+                        inline=rng.random() < 0.5, pe=rng.random() < 0.5, code=rng.choice(CODES)))
+    # `_wavelet_center_compute` / wavelet_center / wavelet_decenter for every integer border
+    for i in range(dict(quick=400, thorough=6000, search=1000)[tier]):
+        nd = rng.choice([1, 2, 2, 2, 3])
+        shape = [(rng.randint(1, 12) if rng.random() < 0.8 else rng.randint(1, 70)) for _ in range(nd)]
+        if rng.random() < 0.03:
+            shape[rng.randrange(nd)] = 0
+        u = rng.random()
+        if u < 0.15:
+            border = -rng.choice([1, 2, 5, 100, 2 ** 41, 2 ** 62])
+        elif u < 0.5:
+            border = rng.randint(0, 24)
+        elif u < 0.8:
+            border = 2 ** rng.randint(3, 39) + rng.choice([-1, 0, 1])
+        elif u < 0.9:
+            border = rng.choice([2 ** 40 - 1, 2 ** 40 - 2, rng.randint(2 ** 20, 2 ** 40 - 1)])
+        else:
+            border = rng.choice([2 ** 40, 2 ** 40 + 1, 2 ** 63, 10 ** 30])
+        dtype = _dtype(rng)
+        n = int(np.prod(shape))
+        out.append(dict(kind='centeri', dtype=dtype, shape=shape, data=_values(rng, n, dtype), border=border,
+                        cval=float(rng.choice([0, 0, 1, -3])), layout='C'))
+    # size-threshold stream: row lengths / element counts crossing 2^8, 2^15, 2^16 (a counter or index narrowed to
+    # 16 bits passes every small case); integer-valued data, judged by the Lean driver (core model)
+    def ints_(n):
+        return [float(rng.randint(-9, 9)) for _ in range(n)]
+    thr = [dict(kind='haar', dtype='float64', shape=[2, 65538], pe=True, inline=False, layout='C'),
+           dict(kind='haar', dtype='float32', shape=[65538, 2], pe=False, inline=True, layout='C'),
+           dict(kind='haar', dtype='float64', shape=[258, 256], pe=True, inline=False, layout='F'),
+           dict(kind='lin', dtype='float64', shape=[2, 32770], name='idaubechies', a=2.0, b=-3.0, code='D6', pe=True, layout='C'),
+           dict(kind='lin', dtype='float64', shape=[256, 258], name='daubechies', a=1.0, b=2.0, code='D20', pe=True, layout='transposed'),
+           dict(kind='tmodel', dtype='float64', shape=[2, 65537], name='haar', pe=True, layout='C')]
+    if tier != 'quick':
+        thr += [dict(kind='tmodel', dtype='float64', shape=[32768, 3], name='ihaar', pe=False, layout='C'),
+                dict(kind='tmodel', dtype='float64', shape=[2, 65539], name='idaubechies', code='D4', layout='C'),
+                dict(kind='haar', dtype='int32', shape=[32770, 4], pe=True, inline=False, layout='strided'),
+                dict(kind='lin', dtype='float32', shape=[4, 65540], name='ihaar', a=1.0, b=1.0, code='D2', pe=False, layout='C')]
+    for c in thr:
+        n = c['shape'][0] * c['shape'][1]
+        c.update(data=ints_(n), stream='threshold')
+        if c['kind'] == 'lin':
+            c['data2'] = ints_(n)
+        out.append(c)
+    if tier == 'thorough':
+        # float32 images with more than 2^24 elements / rows longer than 2^16 (numpy oracle)
+        out.append(dict(kind='bigpy', dtype='float32', shape=[2, 8388610], pe=True, seed=rng.randint(0, 10 ** 6), stream='threshold'))
+        out.append(dict(kind='bigpy', dtype='float32', shape=[131074, 130], pe=False, seed=rng.randint(0, 10 ** 6), stream='threshold'))
     return out
 
 
 def shrink(case):
+    if case['kind'] in ('bigpy', 'tmodel') or case.get('stream') == 'threshold':
+        return
+    if case['kind'] == 'centeri':
+        if case['border'] not in (0, 1, -1):
+            yield dict(case, border=case['border'] // 2)
+        return
+    if case['kind'] == 'mem':
+        sh = case['shape']
+        A0 = np.array(case['data'], np.float64).reshape(sh)
+        for ax in range(2):
+            if sh[ax] > 1:
+                A2 = A0[:-1] if ax == 0 else A0[:, :-1]
+                yield dict(case, shape=list(A2.shape), data=[float(x) for x in A2.ravel()])
+        if case.get('layout', 'C') != 'C':
+            yield dict(case, layout='C')
+        if case['dtype'] != 'float64':
+            yield dict(case, dtype='float64')
+        if case.get('code', 'D2') != 'D2' and case['name'] in ('daubechies', 'idaubechies'):
+            yield dict(case, code=CODES[CODES.index(case['code']) - 1])
+        return
     shape = case['shape']
     A = np.array(case['data'], np.float64).reshape(shape)
     B = np.array(case['data2'], np.float64).reshape(shape) if 'data2' in case else None
